@@ -10,13 +10,17 @@
    implementation did: the root, or an error. *)
 From Coq Require Import ZArith List String Ascii Bool Uint63.
 From GSP Require Import Base.Prelude Base.Decode Value.Time Value.Model Value.Run
-                        RDF.Model RDF.OrdTree SMT.Model SMT.Run.
+                        RDF.Model RDF.OrdTree RDF.OrdFail SMT.Model SMT.Run.
 Import ListNotations.
 Open Scope list_scope.
 
 Inductive tobs := TORoot (r : limbs) | TOErr | TOPanic | TOHang.
 
-Inductive tcase := mkt (id : int) (h : raw_hasher) (thl thm : raw_tab) (ds : dataset) (o : tobs).
+(* failk = 0: MerklizeJSONLD with the default tree; failk = k > 0: with a caller-provided
+   tree (WithMerkleTree) whose k-th Add fails (merklize_tree_ft of RDF/OrdFail.v) *)
+Inductive tcase :=
+| mkt (id : int) (h : raw_hasher) (thl thm : raw_tab) (ds : dataset) (o : tobs)
+| mktf (id : int) (failk : int) (h : raw_hasher) (thl thm : raw_tab) (ds : dataset) (o : tobs).
 
 Definition tagree (hl hm : Z -> Z -> Z) (r : res tree) (o : tobs) : bool :=
   match r, o with
@@ -36,5 +40,11 @@ Definition tmismatches (q : limbs) (rf : raw_floats) (cs : list tcase) : list in
         let tm := mk_tab thm in
         if tagree (fun a b => look2 a b tl) (fun a b => look2 a b tm)
                   (merklize_tree (mk_hasher h) 40 qz F None ds) o
+        then acc else id :: acc
+      | mktf id k h thl thm ds o =>
+        let tl := mk_tab thl in
+        let tm := mk_tab thm in
+        if tagree (fun a b => look2 a b tl) (fun a b => look2 a b tm)
+                  (merklize_tree_ft (mk_hasher h) 40 qz (Z.to_nat (Uint63.to_Z k)) F None ds) o
         then acc else id :: acc
       end) [] cs.
